@@ -909,8 +909,10 @@ def run(ctx, rep):
     rule_grow(ctx, rep)
     rule_local(ctx, rep)
     # a file that is named is in the set: push cannot say Ok for a file it did not add
-    from rules.c13 import rule_pushadds
+    from rules.c13 import rule_pushadds, rule_exit
     rule_pushadds(ctx, rep, rid="R-C03-pushadds")
+    # the failure of the command is the failure of the process: main hands the command's Result on unchanged (no exit code arithmetic)
+    rule_exit(ctx, rep, rid="R-C03-exit")
     from rules import c03_errdrop
     c03_errdrop.run(ctx, rep, rid="R-C03-errdrop")
     # a faulty declaration between two comments must not be swallowed by the first comment
